@@ -16,6 +16,9 @@
 //     target  b = data key
 //   cfg: nd (number of data keys), boolmask (data whose values are 0/1), exec (0 inplace, 1 thread pool, 2 thread per vertex),
 //        workers, refuse_mask (mode 1 only: which submissions the harness executor refuses)
+// Modes (--mode): -1 default mix; 0 = no concurrent injection; 1 = exploratory,
+// the harness executor refuses submissions (only termination / finished /
+// error code != 0 are judged); 2 = concurrent injection in most cycles.
 // A dependency is kept only if its target and condition keys are lower than every
 // emit key of its vertex (acyclic by construction, also after deletions); data
 // without a producer are inputs.
@@ -56,7 +59,7 @@ struct VertP {
   std::vector<int> emits, emptymask;
 };
 struct Inj { int d = 0; bool empty = false, conc = false; uint64_t v = 0; int delay = 0, opid = 0; };
-struct Cyc { bool present = false; int delay = 0; std::vector<Inj> inj; std::vector<int> targets; };
+struct Cyc { bool present = false; int delay = 0, opid = -1; std::vector<Inj> inj; std::vector<int> targets; };
 
 // ---------------------------------------------------------------------------
 // Reference interpreter (sequential, demand driven, memoised).
@@ -96,7 +99,7 @@ struct Ref {
   const char* why = "";
 };
 
-struct DepTrace { char seq[14]; int n; bool cond; };
+struct DepTrace { char seq[14]; int n; int cond, target; };
 struct HExec;
 
 struct St {
@@ -113,10 +116,12 @@ struct St {
   int ninvoked[MAXV] = {};
   int inflight = 0;
   int seals[MAXD] = {};
+  int releasing[64];  // per thread: data whose release() is notifying successors (best effort, for probes only)
   bool tracing = false;
   DepTrace dt[MAXV][MAXDEP];
   uint64_t inj_stamp[MAXD] = {};
   int injector_tid = -1;
+  bool cycle_conc = false;
   int refuse_mask = 0, refused = 0, attempts = 0;
 };
 St* S;
@@ -321,10 +326,27 @@ struct HProc : public af::GraphProcessor {
   }
 };
 
+// The closure counts the vertices in flight; it starts at 1 (run() itself),
+// reaches 0 exactly once — that is what wait() waits for — and nothing of the
+// run may start afterwards. A 0 -> 1 transition means a vertex was invoked on a
+// closure that has already notified "flushed" (wait() may have returned, the
+// client may reset or destroy the graph).
+void vnum_watch(void*, const void*, uint64_t oldv, uint64_t newv);
+af::Closure hook(af::Closure c) {
+  watch(&c.context()->_waiting_vertex_num, 8, vnum_watch, nullptr);
+  return c;
+}
+// The real executors, with the closure registered for the watch above.
+struct HInplace : public af::InplaceGraphExecutor {
+  af::Closure create_closure() noexcept override { return hook(af::InplaceGraphExecutor::create_closure()); }
+};
+struct HPool : public af::ThreadPoolGraphExecutor {
+  af::Closure create_closure() noexcept override { return hook(af::ThreadPoolGraphExecutor::create_closure()); }
+};
 // Executor that runs every vertex / closure callback on a fresh thread; in
 // mode 1 it refuses the submissions selected by refuse_mask.
 struct HExec : public af::GraphExecutor {
-  af::Closure create_closure() noexcept override { return af::Closure::create<::babylon::SchedInterface>(*this); }
+  af::Closure create_closure() noexcept override { return hook(af::Closure::create<::babylon::SchedInterface>(*this)); }
   int32_t run(af::GraphVertex* vertex, af::GraphVertexClosure&& closure) noexcept override {
     int a = S->attempts++;
     if (a < 30 && ((S->refuse_mask >> a) & 1)) { S->refused++; fault_fired("executor_refused"); return -1; }
@@ -338,15 +360,32 @@ struct HExec : public af::GraphExecutor {
 };
 
 // ---------------------------------------------------------------------------
+void vnum_watch(void*, const void*, uint64_t oldv, uint64_t newv) {
+  if (!S || !S->tracing) return;
+  if (oldv == 0 && newv == 1)
+    fail("late-vertex", S->cycle_conc ? "concurrent-inject" : "no-external-input",
+         "cycle %d: a vertex was invoked on a closure whose in-flight count had already dropped to zero (flush notified, wait() returns) — T%d", S->cycle, tid());
+}
 void dep_watch(void* ctx, const void*, uint64_t oldv, uint64_t newv) {
   if (!S || !S->tracing) return;
   DepTrace* t = (DepTrace*)ctx;
   int64_t d = (int64_t)newv - (int64_t)oldv;
-  if (t->n < 12) t->seq[t->n++] = d > 0 ? 'A' : 'r';
+  char ch = 'A';
+  if (d < 0) {  // which data became ready: condition (c) or target (t)?
+    int me = tid(), rel = me >= 0 && me < 64 ? S->releasing[me] : -1;
+    bool cs = t->cond >= 0 && S->gd[t->cond] && S->gd[t->cond]->ready(), ts = S->gd[t->target] && S->gd[t->target]->ready();
+    ch = rel >= 0 && rel == t->cond ? 'c' : rel >= 0 && rel == t->target ? 't' : (cs && !ts) ? 'c' : (ts && !cs) ? 't' : 'r';
+  }
+  if (t->n < 12) t->seq[t->n++] = ch;
 }
 void seal_watch(void* ctx, const void*, uint64_t, uint64_t newv) {
   if (!S || !S->tracing) return;
-  if (newv == (uint64_t)(uintptr_t)af::GraphData::SEALED_CLOSURE) (*(int*)ctx)++;
+  if (newv == (uint64_t)(uintptr_t)af::GraphData::SEALED_CLOSURE) {
+    int k = (int)((int*)ctx - S->seals);
+    (*(int*)ctx)++;
+    int me = tid();
+    if (me >= 0 && me < 64) S->releasing[me] = k;
+  }
 }
 
 void inject(const Inj& in) {
@@ -401,7 +440,7 @@ void parse(const Plan& p) {
     Cyc& cy = s.cyc[c];
     for (auto& op : p.threads[(size_t)c + 1]) {
       cy.present = true;
-      if (op.kind == K_CYCLE) cy.delay = (int)std::max<int64_t>(0, std::min<int64_t>(op.a, 200));
+      if (op.kind == K_CYCLE) { cy.delay = (int)std::max<int64_t>(0, std::min<int64_t>(op.a, 200)); cy.opid = op.id; }
       if (op.kind == K_INJECT && op.b >= 0 && op.b < s.nd && s.in_graph[op.b]) {
         bool dup = false;
         for (auto& i : cy.inj) if (i.d == (int)op.b) dup = true;
@@ -448,11 +487,17 @@ bool do_cycle(int cy) {
   s.inflight = 0; s.injector_tid = -1;
   for (int i = 0; i < MAXV; i++) { s.ninvoked[i] = 0; for (int j = 0; j < MAXDEP; j++) s.dt[i][j].n = 0; }
   for (int k = 0; k < MAXD; k++) { s.seals[k] = 0; s.inj_stamp[k] = 0; }
+  for (int t = 0; t < 64; t++) s.releasing[t] = -1;
   compute_ref(cy);
   const Ref& R = s.ref;
   s.tracing = true;
   bool any_conc = false;
-  for (auto& in : C.inj) { if (in.conc) any_conc = true; else { set_crash_site("inject"); inject(in); } }
+  for (auto& in : C.inj) if (in.conc) any_conc = true;
+  s.cycle_conc = any_conc;
+  // crashes while an input is being injected concurrently get their own site
+  auto site = [any_conc](const char* x) { set_crash_site(any_conc ? "concurrent-inject" : x); };
+  site("inject");
+  for (auto& in : C.inj) if (!in.conc) inject(in);
   std::thread injector;
   if (any_conc) {
     const Cyc* cp = &C;
@@ -468,13 +513,14 @@ bool do_cycle(int cy) {
     });
   }
   if (C.delay) ::usleep((useconds_t)C.delay);
+  OpScope run_scope(C.opid >= 0 ? C.opid : 900 + cy);  // run() .. wait() is one client operation
   std::vector<af::GraphData*> tv;
   for (int t : C.targets) tv.push_back(s.gd[t]);
-  set_crash_site("run");
+  site("run");
   uint64_t run_enter = stamp();
   af::Closure cl = s.graph->run(tv.data(), tv.size());
   uint64_t run_exit = stamp();
-  set_crash_site("get");
+  site("get");
   int rc = cl.get();
   if (!cl.finished()) fail("closure", "not-finished-after-get", "cycle %d: get() returned %d but finished() is false", cy, rc);
   if (cl.error_code() != rc) fail("closure", "error-code-changed", "cycle %d: get() returned %d, error_code() %d", cy, rc, cl.error_code());
@@ -497,7 +543,7 @@ bool do_cycle(int cy) {
       if (g->empty() != R.d[t].empty) fail("target", "emptiness", "cycle %d: target d%d is %s, sequential evaluation gives %s", cy, t, g->empty() ? "empty" : "non-empty", R.d[t].empty ? "empty" : "a value");
       if (!R.d[t].empty && (!pv || *pv != R.d[t].v)) fail("target", "value", "cycle %d: target d%d holds %#llx, sequential evaluation gives %#llx", cy, t, pv ? (unsigned long long)*pv : 0ULL, (unsigned long long)R.d[t].v);
     }
-  set_crash_site("wait");
+  site("wait");
   cl.wait();
   if (s.inflight != 0) fail("wait-early", "in-flight", "cycle %d: wait() returned while %d vertex processors of this run have not finished", cy, s.inflight);
   if (injector.joinable()) injector.join();
@@ -519,6 +565,7 @@ bool do_cycle(int cy) {
     for (int k = 0; k < s.nd; k++) if (s.gd[k]) { hb_unregister(&s.gd[k]->_data); hb_unregister(&s.gd[k]->_empty); s.gd[k] = nullptr; }
     s.tracing = false;
     cl = af::Closure();
+    set_crash_site(nullptr);
     return false;
   }
   if (s.inflight != 0) fail("wait-early", "in-flight-late", "cycle %d: %d vertex processors still running after wait() and the injector finished", cy, s.inflight);
@@ -559,10 +606,10 @@ bool do_cycle(int cy) {
   for (size_t vi = 0; vi < s.verts.size(); vi++)
     for (auto& d : s.verts[vi].deps) if (d.cond >= 0 && R.complete[vi]) probe(R.code[vi][&d - &s.verts[vi].deps[0]] == 0 ? "cond_false" : "cond_true");
   if (cy > 0) probe("cycle_after_reset");
-  set_crash_site("closure-destroy");
+  site("closure-destroy");
   cl = af::Closure();
   s.tracing = false;
-  set_crash_site("reset");
+  site("reset");
   s.graph->reset();
   sim::drain();  // the relaxed stores of reset() are main's own; keeps them out of the next cycle's traces
   check_reset_state();
@@ -582,11 +629,13 @@ void run(const Plan& p) {
   int ex = (int)p.get("exec", 0);
   if (s.mode == 1) ex = 2;
   int workers = (int)std::max<int64_t>(1, std::min<int64_t>(p.get("workers", 1), 3));
-  af::ThreadPoolGraphExecutor* pool = nullptr;
+  HPool* pool = nullptr;
   HExec* hexec = nullptr;
-  af::GraphExecutor* exec = &af::InplaceGraphExecutor::instance();
-  if (ex == 1) exec = pool = new af::ThreadPoolGraphExecutor();
+  HInplace* inplace = nullptr;
+  af::GraphExecutor* exec;
+  if (ex == 1) exec = pool = new HPool();
   else if (ex == 2) exec = hexec = new HExec();
+  else exec = inplace = new HInplace();
   // single-threaded construction through the real builder
   af::GraphBuilder* gb = new af::GraphBuilder();
   gb->set_name("h");
@@ -614,7 +663,7 @@ void run(const Plan& p) {
   for (size_t vi = 0; vi < s.verts.size(); vi++) {
     auto& gv = s.graph->_vertexes[vi];
     for (size_t i = 0; i < s.verts[vi].deps.size(); i++) {
-      s.dt[vi][i].n = 0; s.dt[vi][i].cond = s.verts[vi].deps[i].cond >= 0;
+      s.dt[vi][i].n = 0; s.dt[vi][i].cond = s.verts[vi].deps[i].cond; s.dt[vi][i].target = s.verts[vi].deps[i].target;
       watch(&gv._dependencies[i]._waiting_num, 8, dep_watch, &s.dt[vi][i]);
     }
   }
@@ -630,6 +679,7 @@ void run(const Plan& p) {
   delete gb;
   delete pool;
   delete hexec;
+  delete inplace;
 }
 
 void gen(Rng& r, Plan& p, const GenParams& gp) {
@@ -682,7 +732,7 @@ void gen(Rng& r, Plan& p, const GenParams& gp) {
         else if (!others.empty()) cond = others[r.below(others.size())];
       }
       int y = (int)r.below(25);
-      int level = y < 15 ? 0 : y < 22 ? 1 : 2;
+      int level = y < 16 ? 0 : y < 23 ? 1 : 2;
       add(0, K_DEP, 1, v, target | ((int64_t)(cond + 1) << 8) | ((int64_t)r.below(2) << 16) | ((int64_t)level << 20));
     }
     base += e[v];
@@ -690,10 +740,10 @@ void gen(Rng& r, Plan& p, const GenParams& gp) {
   for (int c = 0; c < ncyc; c++) {
     int t = c + 1;
     add(t, K_CYCLE, (int64_t)r.range(0, 30), 0, 0);
-    bool conc_cycle = r.chance(7, 20);
+    bool conc_cycle = (gp.mode < 0 && r.chance(7, 20)) || (gp.mode == 2 && r.chance(4, 5));
     for (int k = 0; k < nd; k++) {
       bool input = k < ni;
-      if (input ? !r.chance(47, 50) : !r.chance(3, 50)) continue;
+      if (input ? !r.chance(48, 50) : !r.chance(3, 50)) continue;
       int64_t fl = r.chance(1, 9) ? 1 : 0;
       if (input && conc_cycle && r.chance(1, 2)) fl |= 2 | ((int64_t)r.range(0, 6) << 8);
       add(t, K_INJECT, (int64_t)r.range(1, 1 << 20), k, fl);
